@@ -10,6 +10,11 @@
 //! and enumerated again - every enumeration must describe the tree the document has at that
 //! moment. Reference chains: every link of the tree reached through 0..128 hops of bare-reference
 //! objects (exact verdict) and beyond the documented limit (termination and type safety only).
+//! Every document of the valid / malformed / chain / wide / reference-chain families is enumerated
+//! through every form a caller uses (check_forms) and all forms must agree with the step-by-step
+//! run. Kid cycles with fan-out >= 2 x any Count run in child processes under a CPU budget per
+//! case, so that a form that never returns becomes a failing case with a replay. /Type behind a
+//! reference: exact verdict (open finding pagetree-indirect-type).
 use lopdf::{Dictionary, Document, Object, ObjectId};
 use serde_json::{json, Value};
 use std::collections::BTreeMap;
@@ -648,7 +653,17 @@ fn drive(doc: &Document) -> Result<Drive, String> {
 
 fn is_page_object(doc: &Document, id: ObjectId) -> bool {
     match doc.objects.get(&id) {
-        Some(Object::Dictionary(d)) => matches!(d.get(b"Type"), Ok(Object::Name(n)) if n == b"Page"),
+        // the value of Type may sit behind references (harness's own walk over the public map, <= 128 hops)
+        Some(Object::Dictionary(d)) => {
+            let mut t = d.get(b"Type").ok();
+            for _ in 0..128 {
+                match t {
+                    Some(Object::Reference(r)) => t = doc.objects.get(r),
+                    _ => break,
+                }
+            }
+            matches!(t, Some(Object::Name(n)) if n == b"Page")
+        }
         _ => false,
     }
 }
